@@ -308,6 +308,11 @@ impl Options {
 	}
 
 	pub fn is_valid(&self) -> bool {
+		// Column ids are `u8`.
+		if self.columns.len() > ColId::MAX as usize + 1 {
+			log::error!(target: "parity-db", "More than 256 columns are not supported");
+			return false
+		}
 		for option in self.columns.iter() {
 			if !option.is_valid() {
 				return false
